@@ -1,6 +1,6 @@
 # C07 - coroutine mutex: mutual exclusion and exactly-once grant
 import re
-from ..core import norm, relloc, live, calls, evs, Broken, value_origin, Tracer, fmt_trace, rooted, has_back_edge
+from ..core import norm, relloc, live, calls, evs, Broken, value_origin, Tracer, fmt_trace, rooted, has_back_edge, tests, cond_event
 from .. import atomic, publish, witness
 from ..rules import *
 
@@ -120,7 +120,7 @@ def unlock_once(ctx, db, rid):
             cas = [(i, it) for i, it in enumerate(tr) if it.k == 'call' and atomic.is_atomic_call(it) and atomic.opname(it).startswith('compare_exchange') and norm(it.get('field')) == REQ]
             casok = None
             for i, it in enumerate(tr):
-                if it.k == 'branch' and cas and it.cond_ev == cas[-1][1].get('id'):
+                if cas and tests(it, cas[-1][1]):
                     casok = it.val
             ho = all_indices(tr, is_handover)
             if casok is True:
